@@ -1,40 +1,109 @@
 (* C03 — Each executed defer runs exactly once, in LIFO order, on every exit path.
    Only statements, [exact]s and [Print Assumptions] live here.
 
-   compile_fn     : model of the UNCHANGED defer-stack code generation (Model/Defer.v)
-   compile_fn_fx  : the same with the proposed fix (Model/DeferFixed.v)
-   trun_fn        : execution of the generated structured code under an oracle
-   hexec_fn       : reference semantics (Spec/DeferSpec.v): leaving a block by any
-                    path runs exactly the defers it has reached, last first, once
-   fuel           : bound on the iterations of each loop activation, the same in
-                    both (so the equations also say: same divergence behaviour). *)
+   MODEL IN FORCE (since /repo c8af5e1 "fix: defers run exactly once on every
+   exit path"): Model/DeferFixed.v.
+     model_fn_fx fuel body o = lower labels (hir body.rs) ; compile (codegen
+                               functions.rs, defers compiled at every leave site,
+                               loops push a frame, continue unwinds) ; run the
+                               generated structured code under oracle o
+     exec_fn fuel body o     = the specification on the source program (named
+                               labels; leaving a block by any path runs exactly the
+                               defers it has reached, last first, once)
+     snd (lower_fn body) = false : the lowering reported no error (accepted program)
+     fuel                    = bound on the iterations of each loop activation, the
+                               same on both sides (equal divergence behaviour)
+
+   The second half of the file is HISTORY: the statements about the compiler as
+   it was before c8af5e1 (Model/Defer.v), whose full theorem is refuted by the
+   three witnesses that became findings C03-1..3 (now fixed). *)
 From Capy Require Import Common.Util Model.Defer Model.DeferFixed Spec.DeferSpec
   Proofs.DeferSim Proofs.DeferFixedProofs Proofs.DeferProofs Proofs.DeferResolve Proofs.DeferSource.
 
-(* model_fn fuel body o    = lower labels (hir) ; compile (codegen, UNCHANGED) ; run under oracle o
-   model_fn_fx             = the same with the proposed fix in the code generator
-   exec_fn fuel body o     = the specification on the source program (named labels)
-   snd (lower_fn body) = false : the lowering reported no error (accepted program) *)
+(* ======================================================== model in force *)
 
 (* The full property: for EVERY accepted function body, every oracle and every
    loop bound, the compiled code prints exactly the specified trace. *)
 Definition C03_full : Prop :=
+  forall body fuel o, snd (lower_fn body) = false -> model_fn_fx fuel body o = exec_fn fuel body o.
+
+Theorem C03_full_holds : C03_full.
+Proof. exact source_fixed_full. Qed.
+Print Assumptions C03_full_holds.
+
+(* the same, spelled out (name kept from before the fix was committed) *)
+Theorem C03_fixed_full : forall body fuel o,
+  snd (lower_fn body) = false -> model_fn_fx fuel body o = exec_fn fuel body o.
+Proof. exact source_fixed_full. Qed.
+Print Assumptions C03_fixed_full.
+
+(* The ingredients, each for ALL inputs of its stage. *)
+(* label resolution: id-based HIR semantics of the lowered body = name-based spec *)
+Theorem C03_label_resolution : forall body fuel o,
+  snd (lower_fn body) = false ->
+  hexec_fn fuel (fst (lower_fn body)) o = exec_fn fuel body o.
+Proof. exact lower_fn_correct. Qed.
+Print Assumptions C03_label_resolution.
+
+(* code generation, any HIR body (structural induction + induction on loop iterations) *)
+Theorem C03_codegen_fixed_full : forall h code fuel o,
+  compile_fn_fx h = Ok code -> trun_fn fuel code o = hexec_fn fuel h o.
+Proof. exact compile_fn_fx_correct. Qed.
+Print Assumptions C03_codegen_fixed_full.
+
+(* no panic site of the modelled code generators (unreachable!() on a missing
+   label, `expect`s on the defer stack) is reachable on an accepted program *)
+Theorem C03_accepted_programs_compile : forall body, snd (lower_fn body) = false ->
+  (exists code, compile_fn (fst (lower_fn body)) = Ok code) /\ (exists code, compile_fn_fx (fst (lower_fn body)) = Ok code).
+Proof. exact lowered_compiles. Qed.
+Print Assumptions C03_accepted_programs_compile.
+
+(* Non-vacuity: nested loop, labelled block, defers (one of them a block with
+   its own defers), break, continue, return, .try; the former witness programs
+   now print the specified traces. *)
+Definition ex_body : list stmt :=
+  [SDefer (DBlock [72; 105]%N [DAtom 49; DBlock [50]%N [DAtom 51]]);
+   SPrint 97;
+   SLoop (Some 1%N) true
+     [SDefer (DAtom 76);
+      SIf [SContinue None] [];
+      SBlock (Some 2%N) [SDefer (DAtom 88); SIf [SBreak (Some 2%N)] [SPrint 98]; SDefer (DAtom 89)];
+      STry TryOptional;
+      SIf [SBreak None] [];
+      SPrint 99];
+   SDefer (DAtom 65);
+   SPrint 100].
+Example C03_example :
+  snd (lower_fn ex_body) = false /\
+  model_fn_fx 9 ex_body [true; true; true; false; true; false; true]
+    = Ok [97; 76; 88; 76; 100; 65; 72; 105; 50; 51; 49]%N /\
+  exec_fn 9 ex_body [true; true; true; false; true; false; true]
+    = Ok [97; 76; 88; 76; 100; 65; 72; 105; 50; 51; 49]%N /\
+  model_fn_fx 5 w_k1 [true; true] = Ok [65%N] /\
+  model_fn_fx 5 w_k2 [true; true; false] = Ok [76%N] /\
+  model_fn_fx 5 w_k3 [true] = Ok [65%N].
+Proof. vm_compute. repeat split. Qed.
+
+(* ================================================================ HISTORY
+   The compiler before /repo c8af5e1 (Model/Defer.v: defers compiled into exit
+   blocks, no frame for loops, continue = bare jump). *)
+
+Definition C03_full_pre_fix : Prop :=
   forall body fuel o, snd (lower_fn body) = false -> model_fn fuel body o = exec_fn fuel body o.
 
-(* It is FALSE of the unchanged compiler (findings C03-1, C03-2, C03-3). *)
-Theorem C03_full_refuted : ~ C03_full.
+(* FALSE of the pre-fix compiler (findings C03-1, C03-2, C03-3, fixed by c8af5e1). *)
+Theorem C03_full_pre_fix_refuted : ~ C03_full_pre_fix.
 Proof. exact source_full_refuted. Qed.
-Print Assumptions C03_full_refuted.
+Print Assumptions C03_full_pre_fix_refuted.
 
-(* The same at the level of the code generator alone (all HIR bodies). *)
-Definition C03_codegen_full : Prop :=
+Definition C03_codegen_full_pre_fix : Prop :=
   forall h code fuel o, compile_fn h = Ok code -> trun_fn fuel code o = hexec_fn fuel h o.
-Theorem C03_codegen_full_refuted : ~ C03_codegen_full.
+Theorem C03_codegen_full_pre_fix_refuted : ~ C03_codegen_full_pre_fix.
 Proof. exact defer_full_refuted. Qed.
-Print Assumptions C03_codegen_full_refuted.
+Print Assumptions C03_codegen_full_pre_fix_refuted.
 
-(* Witnesses, one per defect class, from source text to trace
-   (spec trace, HIR-spec trace, unchanged compiler, fixed compiler, class flags). *)
+(* Witnesses, one per defect class (spec trace, HIR-spec trace, pre-fix compiler,
+   fixed compiler, class flags). *)
 Theorem C03_witness_break_out_of_loop :
   snd (lower_fn w_k1) = false /\ exec_fn 5 w_k1 [true; true] = Ok [65%N] /\
   hexec_fn 5 (fst (lower_fn w_k1)) [true; true] = Ok [65%N] /\
@@ -62,72 +131,19 @@ Theorem C03_witness_unreached_defer_runs :
 Proof. exact w_k3_fails. Qed.
 Print Assumptions C03_witness_unreached_defer_runs.
 
-(* The strongest true statement about the unchanged compiler: on every accepted
-   function body whose HIR is outside the three syntactic defect classes
+(* The strongest true statement about the pre-fix compiler: correct on every
+   accepted body whose HIR is outside the three syntactic defect classes
      K1 an exit jump to a loop while a block enclosing the loop has a pending defer,
      K2 a continue while a block inside the loop has a pending defer,
-     K3 a defer placed, in the target block of a jump, after the statement containing the jump,
-   the compiled code prints exactly the specified trace (all programs, all
-   oracles, all loop bounds; structural induction, no size bound). *)
-Theorem C03_except_known : forall body fuel o,
+     K3 a defer placed, in the target block of a jump, after the statement containing the jump. *)
+Theorem C03_except_known_pre_fix : forall body fuel o,
   snd (lower_fn body) = false -> known_class_free (fst (lower_fn body)) = true ->
   model_fn fuel body o = exec_fn fuel body o.
 Proof. exact source_except_known. Qed.
-Print Assumptions C03_except_known.
+Print Assumptions C03_except_known_pre_fix.
 
-(* With the proposed fix the FULL property holds, for all accepted programs. *)
-Theorem C03_fixed_full : forall body fuel o,
-  snd (lower_fn body) = false -> model_fn_fx fuel body o = exec_fn fuel body o.
-Proof. exact source_fixed_full. Qed.
-Print Assumptions C03_fixed_full.
-
-(* The three ingredients, each for ALL inputs of its stage. *)
-(* label resolution: id-based HIR semantics of the lowered body = name-based spec *)
-Theorem C03_label_resolution : forall body fuel o,
-  snd (lower_fn body) = false ->
-  hexec_fn fuel (fst (lower_fn body)) o = exec_fn fuel body o.
-Proof. exact lower_fn_correct. Qed.
-Print Assumptions C03_label_resolution.
-
-(* code generation, unchanged compiler, any HIR body outside K1..K3 *)
-Theorem C03_codegen_except_known : forall h code fuel o,
+Theorem C03_codegen_except_known_pre_fix : forall h code fuel o,
   known_class_free h = true -> compile_fn h = Ok code ->
   trun_fn fuel code o = hexec_fn fuel h o.
 Proof. exact compile_fn_except_known. Qed.
-Print Assumptions C03_codegen_except_known.
-
-(* code generation with the fix, any HIR body *)
-Theorem C03_codegen_fixed_full : forall h code fuel o,
-  compile_fn_fx h = Ok code -> trun_fn fuel code o = hexec_fn fuel h o.
-Proof. exact compile_fn_fx_correct. Qed.
-Print Assumptions C03_codegen_fixed_full.
-
-(* no panic site of the modelled code generators (unreachable!() on a missing
-   label, `expect`s on the defer stack) is reachable on an accepted program *)
-Theorem C03_accepted_programs_compile : forall body, snd (lower_fn body) = false ->
-  (exists code, compile_fn (fst (lower_fn body)) = Ok code) /\ (exists code, compile_fn_fx (fst (lower_fn body)) = Ok code).
-Proof. exact lowered_compiles. Qed.
-Print Assumptions C03_accepted_programs_compile.
-
-(* Non-vacuity: a function with nested loop, labelled block, defers, break,
-   continue, return and .try that is outside the known classes, is compiled, and
-   prints a non-trivial trace. *)
-Definition ex_body : list stmt :=
-  [SDefer 65;
-   SPrint 97;
-   SLoop (Some 1%N) true
-     [SIf [SContinue None] [];
-      SBlock (Some 2%N) [SDefer 88; SIf [SBreak (Some 2%N)] [SPrint 98]];
-      STry;
-      SDefer 76;
-      SPrint 99];
-   SPrint 100].
-Example C03_example :
-  snd (lower_fn ex_body) = false /\
-  known_class_free (fst (lower_fn ex_body)) = true /\
-  is_ok (compile_fn (fst (lower_fn ex_body))) = true /\
-  model_fn 9 ex_body [true; false; true; false; true; false; false; false; false]
-    = Ok [97; 88; 99; 76; 98; 88; 99; 76; 100; 65]%N /\
-  exec_fn 9 ex_body [true; false; true; false; true; false; false; false; false]
-    = Ok [97; 88; 99; 76; 98; 88; 99; 76; 100; 65]%N.
-Proof. vm_compute. repeat split. Qed.
+Print Assumptions C03_codegen_except_known_pre_fix.
